@@ -64,7 +64,7 @@ func NewSolver(kind SolverKind, timeout time.Duration) (*Solver, error) {
 	if kind == Z3 && timeout > 15*time.Second {
 		timeout = 15 * time.Second // the rest of the budget goes to the fall-back solvers
 	}
-	if kind == Z3 && optPathsTime && timeout > 5*time.Second {
+	if kind == Z3 && optPathsTime2 && timeout > 5*time.Second {
 		// C28-C30: the incremental core is weak on min/max selection queries that a one-shot run
 		// decides in seconds (fallback tries one-shot z3 first)
 		timeout = 5 * time.Second
@@ -406,7 +406,7 @@ func (s *Solver) fallback(extra *Term, ts []*Term) (SatResult, []ModelVal, error
 		// multiply/divide kernels (decimal conversion): the integer encoding first (DESIGN 3.3)
 		try = [][]string{try[2], try[0], try[1]}
 	}
-	if optPathsTime {
+	if optPathsTime2 {
 		try = append([][]string{{"z3", "-in", "-T:" + strconv.Itoa(int(s.fallbackTimeout()/time.Second))}}, try...)
 	}
 	for _, argv := range try {
